@@ -233,7 +233,7 @@ def uniq(sequence: ArrayT, key: object = None) -> list[object]:
                 item = obj[key]
             except KeyError:
                 item = MISSING
-            except TypeError as err:
+            except (TypeError, IndexError) as err:
                 raise FilterArgumentError(
                     f"can't read property '{key}' of {obj}", token=None
                 ) from err
@@ -251,12 +251,19 @@ def uniq(sequence: ArrayT, key: object = None) -> list[object]:
 def compact(sequence: ArrayT, key: object = None) -> list[object]:
     """Return a copy of _sequence_ with any nil values removed."""
     if key is not None:
-        try:
-            return [itm for itm in sequence if itm[key] is not None]
-        except TypeError as err:
-            raise FilterArgumentError(
-                f"can't read property '{key}'", token=None
-            ) from err
+        result = []
+        for itm in sequence:
+            try:
+                if itm[key] is not None:
+                    result.append(itm)
+            except KeyError:
+                # A missing property is nil.
+                continue
+            except (TypeError, IndexError) as err:
+                raise FilterArgumentError(
+                    f"can't read property '{key}'", token=None
+                ) from err
+        return result
     return [itm for itm in sequence if itm is not None]
 
 
@@ -267,10 +274,14 @@ def sum_(sequence: ArrayT, key: object = None) -> Union[float, int, Decimal]:
     If _key_ is given, it is assumed that sequence items are mapping-like,
     and the values at _item[key]_ will be summed instead.
     """
-    if key is not None and not is_undefined(key):
-        rv = sum(decimal_arg(_getitem(elem, key, 0), 0) for elem in sequence)
-    else:
-        rv = sum(decimal_arg(elem, 0) for elem in sequence)
+    try:
+        if key is not None and not is_undefined(key):
+            rv = sum(decimal_arg(_getitem(elem, key, 0), 0) for elem in sequence)
+        else:
+            rv = sum(decimal_arg(elem, 0) for elem in sequence)
+    except ArithmeticError as err:
+        # For example, infinity plus negative infinity.
+        raise FilterArgumentError(f"sum: {err}", token=None) from err
     if isinstance(rv, Decimal):
         return float(rv)
     return rv
